@@ -28,13 +28,9 @@ GROUPS = [
     for sfx, t, nm in [('x', 4, 'ExplicitX'), ('y', 5, 'ExplicitY')]
 ] + [
 ] + [
-    R('rep_offsets_' + sfx, 'get_offsets', 'h_rep_offsets', defines={'VF_FIXED_TYPE': t}, unwind=5, kind='bounded', timeout=900,
-      apply_loop_contracts=False, loop_contracts_for=[],
-      bound='%s kind: lattices of 0..3 columns x 0..3 rows (loops unwound, unwinding assertions on), arbitrary doubles, arbitrary lattice index' % nm)
-    for sfx, t, nm in [('rect', 1, 'Rectangular'), ('regular', 2, 'Regular')]
-] + [
     # rep_offsets_rect / rep_offsets_regular (get_offsets, lattices <= 3 x 3; contract in contracts/repetition.ct):
-    # out of memory (writes through a double* view of the Vec2 array at loop-dependent offsets); not claimed.
+    # out of memory (writes through a double* view of the Vec2 array at loop-dependent offsets), also with the kind fixed per group
+    # (round 2: cbmc error after 177 s); not claimed.
     # rep_extrema_explicit (bounded ExplicitX/Y, <= 3 coordinates): CBMC reports postcondition failures whose printed
     # counterexample satisfies the clause and replays clean natively; unexplained, so the group is NOT claimed.
     # full get_extrema incl. the ExplicitX/ExplicitY coordinate loops (loop contracts in contracts/repetition.ct):
